@@ -73,11 +73,12 @@ package bech32
 //@   loop 2 decreases len(h) - rangeindex
 //@   ensures#len printable(hrp) ==> len(ret) == 2 * len(hrp) + 1                                      [C09]
 //@   assumes#det bytes(ret) == hrpx(hrp)
-//@   fresh ret when len(ret) > 0
+//@   fresh ret when rg(ret) != 0
 //@   modifies nothing
 
 //@ func verifyChecksum(hrp, data) (ok)
 //@   ensures#iff ok <==> polyb(cat(hrpx(hrp), old(bytes(data)))) == 1                                 [C09]
+//@   modifies nothing
 
 //@ func createChecksum(hrp, data) (ret)
 //@   loop 1 unroll
@@ -87,6 +88,7 @@ package bech32
 //@   ensures#mod mod == xor32(polyb(cat(hrpx(hrp), old(bytes(data)), zeros6())), 1)                         [C09]
 //@   ensures#val forall j in 0..6 :: ret[j] == (mod / pow2(5 * (5 - j))) % 32                              [C09]
 //@   fresh ret
+//@   modifies nothing
 
 //@ func convertBits(data, frombits, tobits, pad) (ret, err)
 //@   requires 1 <= frombits && frombits <= 8 && 1 <= tobits && tobits <= 8
@@ -107,7 +109,7 @@ package bech32
 //@   loop 1 decreases len(s) - $pos
 //@   loop 2 invariant 0 <= $pos && $pos <= len(hrp) && (forall j in 0..$pos :: 33 <= at(hrp, j) && at(hrp, j) <= 126)
 //@   loop 2 decreases len(hrp) - $pos
-//@   loop 3 invariant 0 <= $pos && $pos <= len(s) - pos - 1 && len(data) == $pos && 1 <= pos && pos + 7 <= len(s)
+//@   loop 3 invariant 0 <= $pos && $pos <= len(s) - pos - 1 && len(data) == $pos && 1 <= pos && pos + 7 <= len(s) && (rg(data) == 0 || fresh(data))
 //@   loop 3 invariant#syms forall j in 0..$pos :: 0 <= data[j] && data[j] < 32                         [C09 C14]
 //@   loop 3 decreases len(s) - $pos
 //@   call fmt.Errorf#1 requires len(arg1) == 2 && typeis(arg1[0], "int") && typeis(arg1[1], "int32")        [C18]
@@ -121,6 +123,8 @@ package bech32
 //@   ensures#case err == nil ==> (nolower(old(s)) || noupper(old(s)))                                  [C09]
 //@   ensures#hrp err == nil ==> len(hrp) >= 1 && printable(hrp) && hasprefix(old(s), hrp) && len(hrp) + 7 <= len(old(s)) && at(old(s), len(hrp)) == 49   [C09]
 //@   ensures#lastsep err == nil ==> (forall j in len(hrp)+1..len(old(s)) :: at(old(s), j) != 49)        [C09]
+//@   fresh data when len(data) > 0
+//@   modifies nothing
 
 //@ func Encode(hrp, data) (s, err)
 //@   loop 1 invariant 0 <= $pos && $pos <= len(hrp) && (forall j in 0..$pos :: 33 <= at(hrp, j) && at(hrp, j) <= 126)
@@ -132,3 +136,4 @@ package bech32
 //@   call convertBits#1 requires same(arg0, data) && arg1 == 8 && arg2 == 5 && arg3                                     [C09]
 //@   ensures#hrp err == nil ==> len(hrp) >= 1 && printable(hrp) && (nolower(hrp) || noupper(hrp))                       [C09]
 //@   ensures#nil err != nil ==> s == ""                                                                                [C09]
+//@   modifies nothing
